@@ -342,7 +342,10 @@ def real_observations(name):
 def matches(name, plan, flags=None):
     """-> (True, None) or (False, description of the first differing scenario)."""
     flags = flags or {}
-    real = real_observations(name)
+    try:
+        real = real_observations(name)
+    except Exception as e:       # noqa
+        return False, "the real method could not be exercised: %s: %s" % (type(e).__name__, e)
     if not real:
         return False, "signature not understood"
     ref = reference(plan, name, flags)
@@ -418,7 +421,10 @@ def candidates(name, real):
 
 def classify(name):
     """Plans (with flags) the real method is observationally identical to.  [] = none (not a forwarding plan)."""
-    real = real_observations(name)
+    try:
+        real = real_observations(name)
+    except Exception:       # noqa
+        return []
     if not real:
         return []
     flag_sets = [{"pow_mod": True}, {"pow_mod": False}] if name == "__pow__" else [{}]
